@@ -80,7 +80,7 @@ def lexpr : Nat → List String → Option (LExpr × List String)
     some (.right x o e, r1)
   | _, _ => none
 
-/-- an expression tree in prefix form: `A <operand>` | `B <op> <e> <e>` -/
+/-- an expression tree in prefix form: `A <operand>` | `B <op> <e> <e>` | `S <l|r> <count> <e>` -/
 def gexpr : Nat → List String → Option (GenReg.GExpr × List String)
   | 0, _ => none
   | _ + 1, "A" :: a :: r => (ra a).map fun a => (.atom a, r)
@@ -89,12 +89,19 @@ def gexpr : Nat → List String → Option (GenReg.GExpr × List String)
     let (l, r1) ← gexpr f r
     let (rr, r2) ← gexpr f r1
     some (.bin l o rr, r2)
+  | f + 1, "S" :: d :: k :: r => do
+    -- S <l|r> <count> <e> : (e) << count / (e) >> count
+    let left ← (if d == "l" then some true else if d == "r" then some false else none)
+    let k ← k.toNat?
+    let (e, r1) ← gexpr f r
+    some (.sh e left k, r1)
   | _, _ => none
 
 /-- shapes the port leaves outside by design (reported as `outside`, not as a rejection): a node with two constant
     operands (folded by the generator) and `X | 0` / `0 | X` (no code at all) -/
 def gexprFolds : GenReg.GExpr → Bool
   | .atom _ => false
+  | .sh e _ k => gexprFolds e || decide (k > 7) || (match e with | .atom a => a.isConst | _ => false)
   | .bin l o r =>
     gexprFolds l || gexprFolds r ||
       (match l, r with
@@ -136,6 +143,15 @@ def condLeaf (t : String) : Option Cond :=
   | ["cmp", o, a, b] => do let o ← cop o; let a ← ra a; let b ← ra b; some (Cond.cmp o a b)
   | ["t", v] => (lv v).map Cond.truth
   | ["nt", v] => (lv v).map Cond.nottruth
+  | "cmpe" :: o :: b :: side :: rest => do
+    -- cmpe:<op>:<b>:<L|R>:<tree in prefix form> : `(e) op b` (L) / `b op (e)` (R)
+    let o ← cop o; let b ← atom b
+    let (e, r) ← gexpr (rest.length + 1) rest
+    if !r.isEmpty then none
+    else if side == "L" then some (Cond.cmpE o e b true) else if side == "R" then some (Cond.cmpE o e b false) else none
+  | "te" :: rest => do
+    let (e, r) ← gexpr (rest.length + 1) rest
+    if r.isEmpty then some (Cond.truthE e) else none
   | _ => none
 
 /-- cond := and cond cond | or cond cond | not cond | leaf -/
